@@ -370,6 +370,12 @@ func diffClass(a, b outcome) string {
 			return "flattenAdjacentSplitterNodes:split-weights-depend-on-map-order"
 		}
 		return "compile:nondeterministic:chain-differs"
+	case a.kind == "panic":
+		// whether the panicking statement is reached can itself depend on the iteration order; the
+		// defect is the panic
+		return "panic:" + panicSite(a.stack)
+	case b.kind == "panic":
+		return "panic:" + panicSite(b.stack)
 	case a.kind != b.kind:
 		return "compile:nondeterministic:" + a.kind + "-vs-" + b.kind
 	default:
@@ -412,9 +418,14 @@ func caseSeed(cd caseDef) uint64 {
 	return h.Sum64()
 }
 
-func (m *mon) record(key, text string) {
+func (m *mon) record(key string, o outcome) {
+	text := o.text
+	kind := o.kind
+	if kind == "panic" {
+		kind = "panic:" + panicSite(o.stack)
+	}
 	m.mu.Lock()
-	m.hashes[key] = core.Hash(text) + "\t" + core.Hash(stripWeights(text))
+	m.hashes[key] = core.Hash(text) + "\t" + core.Hash(stripWeights(text)) + "\t" + kind
 	m.order = append(m.order, key)
 	m.mu.Unlock()
 }
@@ -456,7 +467,7 @@ func (m *mon) partA(cd caseDef) {
 				return map[string]any{"case": cd.ID, "case_seed": cd.Seed, "service": svc, "context": ctx, "entries": entriesWitness(es)}
 			}
 			first := compileOnce(ctx.req(svc, set0))
-			m.record(key, first.text)
+			m.record(key, first)
 			if first.kind == "timeout" {
 				m.hang("Compile", fmt.Sprintf("chain %q in %s of case %s", svc, core.JSON(ctx), cd.ID), witness())
 			}
@@ -1194,9 +1205,16 @@ func TestZZVerifC15(t *testing.T) {
 				if mine != kv[1] {
 					// hash of the outcome <tab> hash of the outcome without split weights
 					key := "C15:compile:nondeterministic:across-processes"
-					a, b := strings.SplitN(mine, "\t", 2), strings.SplitN(kv[1], "\t", 2)
-					if len(a) == 2 && len(b) == 2 && a[1] == b[1] {
-						key = "C15:flattenAdjacentSplitterNodes:split-weights-depend-on-map-order"
+					a, b := strings.Split(mine, "\t"), strings.Split(kv[1], "\t")
+					if len(a) == 3 && len(b) == 3 {
+						switch {
+						case strings.HasPrefix(a[2], "panic:"):
+							key = "C15:" + a[2]
+						case strings.HasPrefix(b[2], "panic:"):
+							key = "C15:" + b[2]
+						case a[1] == b[1]:
+							key = "C15:flattenAdjacentSplitterNodes:split-weights-depend-on-map-order"
+						}
 					}
 					run.Violation(key, "evaluation "+kv[0]+" (case|chain|context#) compiled differently in a child process (same seed, same generator); rerun with the same VERIF_SEED to reproduce",
 						map[string]any{"evaluation": kv[0], "parent_hash": mine, "child_hash": kv[1]})
